@@ -69,6 +69,22 @@ SELECTS = [
     "SELECT a FROM t1 WHERE a = 1 AND (b = 2 OR b = 3) AND NOT (a = 2 OR b IS NULL)",
     "SELECT a FROM t1 WHERE a > b OR NOT a > b OR a IS NULL",
 ]
+# generated: every combination of direction and NULL placement on a two-key ordering (nullable keys), plus single keys, positions,
+# expressions; compared as sequences (see check_member)
+_DIRS = ('', ' ASC', ' DESC')
+_NULLS = ('', ' NULLS FIRST', ' NULLS LAST')
+ORDER_GEN = ["SELECT a, b FROM t1 ORDER BY a%s%s, b%s%s" % (d1, n1, d2, n2) for d1 in _DIRS for n1 in _NULLS for d2 in _DIRS for n2 in _NULLS]
+ORDER_GEN += ["SELECT a, b FROM t1 ORDER BY %s%s%s" % (k, d, n) for k in ('a', '2', 'a + b', 't1.b') for d in _DIRS for n in _NULLS]
+ORDER_GEN += ["SELECT a, b FROM t1 ORDER BY b%s%s, a%s LIMIT 1 OFFSET 1" % (d, n, d2) for d in _DIRS for n in _NULLS for d2 in _DIRS]
+ORDER_GEN += ["SELECT s.a FROM (SELECT a, b FROM t1 ORDER BY b%s%s, a LIMIT 1) AS s" % (d, n) for d in _DIRS for n in _NULLS]
+ORDER_GEN += ["SELECT a FROM t1 UNION SELECT c FROM t2 ORDER BY a%s%s" % (d, n) for d in _DIRS for n in _NULLS]
+SETOP_TAIL = ["SELECT id FROM t1 %s SELECT id FROM t2 %s" % (op, tail)
+              for op in ('UNION', 'UNION ALL', 'INTERSECT', 'EXCEPT')
+              for tail in ('ORDER BY id', 'ORDER BY id DESC LIMIT 1', 'ORDER BY 1 LIMIT 1 OFFSET 1', 'LIMIT 1', 'ORDER BY id DESC NULLS LAST')]
+SETOP_TAIL += ["SELECT id FROM t1 UNION ALL SELECT id FROM t2 UNION ALL SELECT id FROM t3 ORDER BY id LIMIT 2",
+               "SELECT s.id FROM (SELECT id FROM t1 UNION ALL SELECT id FROM t2 ORDER BY id DESC LIMIT 1) AS s"]
+SELECTS = SELECTS + ORDER_GEN + SETOP_TAIL
+
 DML = [
     "DELETE FROM t1 WHERE a > 1",
     "DELETE FROM t1 WHERE a = 1 OR b IS NULL",
@@ -98,11 +114,61 @@ def render(sql, dialect):
         return ast, None, '%s: %s' % (type(e).__name__, str(e)[:80])
 
 
+_SETOP = r'(?:UNION ALL|UNION|INTERSECT ALL|INTERSECT|EXCEPT ALL|EXCEPT)'
+
+
+def _match_paren(t, i):
+    """index of the parenthesis closing the one at t[i] (quotes respected)"""
+    depth, k, q = 0, i, None
+    while k < len(t):
+        ch = t[k]
+        if q:
+            if ch == q:
+                q = None
+        elif ch in '\'"`':
+            q = ch
+        elif ch == '(':
+            depth += 1
+        elif ch == ')':
+            depth -= 1
+            if depth == 0:
+                return k
+        k += 1
+    return -1
+
+
+def member_parens_to_derived(text):
+    """`A UNION (SELECT ..)` / `(SELECT ..) UNION B`: the repo's parser drops the parentheses around a member of a set operation
+    (and then reads the member's ORDER BY/LIMIT as the whole operation's).  A parenthesised member is rewritten to the equivalent
+    `SELECT * FROM (SELECT ..) AS _mK`, which every reader and engine involved understands the same way."""
+    k = 0
+    while True:
+        m = re.search(_SETOP + r'\s*(\()\s*SELECT\b', text, re.I)
+        if m:
+            i = m.start(1)
+        else:
+            m = re.search(r'(?:^|\(|\bAS\b)\s*(\()\s*SELECT\b', text, re.I)
+            i = None
+            for m in re.finditer(r'(\()\s*SELECT\b', text, re.I):
+                j = _match_paren(text, m.start(1))
+                if j > 0 and re.match(r'\s*' + _SETOP + r'\b', text[j + 1:], re.I):
+                    i = m.start(1)
+                    break
+            if i is None:
+                return text
+        j = _match_paren(text, i)
+        if j < 0:
+            return text
+        k += 1
+        text = text[:i] + 'SELECT * FROM ' + text[i:j + 1] + ' AS _m%d' % k + text[j + 1:]
+
+
 def readback(text):
-    """rendered text -> tree, with the repo's mindsdb parser (dialect quoting "x" of plain names is removed first)"""
+    """rendered text -> tree, with the repo's mindsdb parser (dialect quoting "x" of plain names is removed first, parenthesised
+    members of set operations are kept apart as derived tables)"""
     from mindsdb_sql import parse_sql
     t = re.sub(r'"([A-Za-z_][A-Za-z_0-9]*)"', r'`\1`', text)
-    return parse_sql(t, 'mindsdb')
+    return parse_sql(member_parens_to_derived(t), 'mindsdb')
 
 
 def dml_effect(ev, db, stmt):
@@ -155,6 +221,14 @@ def dml_effect(ev, db, stmt):
     raise SR.Unsupported(type(stmt).__name__)
 
 
+NULL_ORDER = {'sqlite': 'low', 'mysql': 'low', 'postgresql': 'high'}
+
+
+def with_rank(rel):
+    r = SR.Rel(list(rel.cols) + [SR.Col('#position')], [(p, list(cs) + [(SR.FALSE, rk)]) for (p, cs), rk in zip(rel.rows, rel._ranks)])
+    return r
+
+
 def check_member(sql, dialect, R, D, timeout_ms=120000):
     from mindsdb_sql.parser import ast as A
     ast, text, err = render(sql, dialect)
@@ -167,6 +241,8 @@ def check_member(sql, dialect, R, D, timeout_ms=120000):
         return dict(info, status='unsupported', reason='rendered text is not readable by the mindsdb parser: %s' % str(e)[:80].replace('\n', ' '))
     db = SR.DB(SCHEMA, R, D)
     ev1, ev2 = SR.Evaluator(db), SR.Evaluator(db)
+    # a sort key without NULLS FIRST/LAST means the target engine's default on both sides
+    ev1.null_order = ev2.null_order = NULL_ORDER[dialect]
     try:
         if isinstance(ast, (A.Delete, A.Update, A.Insert)):
             if type(back) is not type(ast):
@@ -178,6 +254,10 @@ def check_member(sql, dialect, R, D, timeout_ms=120000):
         else:
             a = ev1.query(ast)
             b = ev2.query(back)
+            if getattr(ast, 'order_by', None) and hasattr(a, '_ranks') and hasattr(b, '_ranks'):
+                # ordered result: compare as sequences = bags of (row, position), positions being unique under the no-ties assumption
+                a, b = with_rank(a), with_rank(b)
+                info['ordered'] = True
     except SR.Unsupported as e:
         return dict(info, status='unsupported', reason=str(e))
     problems = []
@@ -191,7 +271,7 @@ def check_member(sql, dialect, R, D, timeout_ms=120000):
     s.add(SR.bags_differ(a, b))
     t0 = time.time()
     r = str(s.check())
-    out = dict(info, solver_s=round(time.time() - t0, 2), problems=problems)
+    out = dict(info, solver_s=round(time.time() - t0, 4), problems=problems)
     if r == 'unsat':
         out['status'] = 'counterexample' if problems else 'discharged'
         out['kind'] = 'columns'
@@ -213,26 +293,64 @@ def replay_member(sql, dialect, witness):
         return False, {'note': 'not rendered'}
 
     def fresh():
-        con = sqlite3.connect(':memory:')
+        con = SR.connect()
         for t, cols in SCHEMA.items():
             con.execute('CREATE TABLE %s (%s)' % (t, ', '.join('%s INTEGER' % c for c in cols)))
             for r in witness['db'].get(t, []):
                 con.execute('INSERT INTO %s VALUES (%s)' % (t, ', '.join('?' * len(cols))), r)
         return con
 
-    def run(q):
+    ordered = isinstance(ast, (A.Select, A.Union)) and bool(getattr(ast, 'order_by', None))
+
+    def explicit(tree):
+        """every sort key without NULLS FIRST/LAST gets the target engine's default spelled out, so that sqlite3 orders the way
+        the target engine would"""
+        from mindsdb_sql.parser.ast.base import ASTNode
+        seen = set()
+
+        def walk(n):
+            if id(n) in seen:
+                return
+            seen.add(id(n))
+            if isinstance(n, A.OrderBy) and str(n.nulls).lower() == 'default':
+                desc = str(n.direction).upper() == 'DESC'
+                first = (not desc) if NULL_ORDER[dialect] == 'low' else desc
+                n.nulls = 'NULLS FIRST' if first else 'NULLS LAST'
+            if isinstance(n, ASTNode):
+                for v in vars(n).values():
+                    walk(v)
+            elif isinstance(n, (list, tuple)):
+                for v in n:
+                    walk(v)
+            elif isinstance(n, dict):
+                for v in n.values():
+                    walk(v)
+        walk(tree)
+        return str(tree)
+
+    def run(q, tree=None):
         con = fresh()
+        if tree is not None and not isinstance(ast, (A.Delete, A.Update, A.Insert)):
+            q = explicit(tree)
         cur = con.execute(q.replace('`', '"'))
         if isinstance(ast, (A.Delete, A.Update, A.Insert)):
             name = str(ast.table.parts[-1])
             return sorted(map(repr, con.execute('SELECT * FROM %s' % name).fetchall()))
-        return sorted(map(repr, cur.fetchall()))
+        rows = list(map(repr, cur.fetchall()))
+        return rows if ordered else sorted(rows)
     try:
-        want = run(sql)
+        want = run(sql, copy.deepcopy(ast))
     except Exception as e:  # noqa
         return False, {'note': 'sqlite cannot run the original: %s' % e}
+    if dialect == 'sqlite':
+        # the text rendered FOR sqlite must itself be executable by sqlite
+        try:
+            fresh().execute(text)
+        except Exception as e:  # noqa
+            return True, {'sql': sql, 'rendered': text, 'db': witness['db'], 'original_rows': want,
+                          'rendered_rows': 'sqlite cannot execute the text rendered for sqlite: %s' % e}
     try:
-        got = run(text)
+        got = run(text, readback(text))
     except Exception as e:  # noqa
         return False, {'note': 'sqlite cannot run the %s text: %s' % (dialect, e), 'rendered': text}
     return got != want, {'sql': sql, 'rendered': text, 'db': witness['db'], 'original_rows': want, 'rendered_rows': got}
